@@ -6,21 +6,6 @@ set_option linter.unusedSimpArgs false
 namespace DarkluaModel.C07
 open DarkluaModel.Rules
 
-/-- count the constructs of both -/
-def _root_.DarkluaModel.Rules.Census.add (A B : Census) : Census where
-  bin := fun op => A.bin op + B.bin op
-  ifx := A.ifx + B.ifx
-  interp := A.interp + B.interp
-  cast := A.cast + B.cast
-  inst := A.inst + B.inst
-  cassign := fun op => A.cassign op + B.cassign op
-  cont := A.cont + B.cont
-  localKind := fun k => A.localKind k + B.localKind k
-  typeStmt := A.typeStmt + B.typeStmt
-  tyNode := A.tyNode + B.tyNode
-  generic := A.generic + B.generic
-  attr := A.attr + B.attr
-
 variable (A B : Census)
 
 theorem add_ifx : (A.add B).ifx = A.ifx + B.ifx := rfl
